@@ -15,5 +15,9 @@ export CARGO_NET_OFFLINE=true
 ./translator/target/release/rs2v ratchet /repo coq/Gen/RatchetGen.v
 ./translator/target/release/rs2v admission /repo coq/Gen/AdmissionGen.v
 ./translator/target/release/rs2v resume /repo coq/Gen/ResumeGen.v
+./translator/target/release/rs2v privgen /repo coq/Gen/PrivGen.v
+./translator/target/release/rs2v nodevec /repo coq/Gen/NodeVecGen.v
+./translator/target/release/rs2v transcript /repo coq/Gen/TranscriptGen.v
+./translator/target/release/rs2v latesender /repo coq/Gen/LateSenderGen.v
 (cd coq && coq_makefile -f _CoqProject -o Makefile >/dev/null && timeout 3000 make -j16 >/dev/null)
 echo setup done
